@@ -9,6 +9,8 @@ import PBProofs.Lemmas.DbKey
 import PB.Gen.DbTime
 import PB.Gen.MetaSrc
 import PB.Gen.DbKey
+import PB.Gen.DbIter
+import PBProofs.Lemmas.IterHandOver
 /-
 C02 — Every database backend behaves like one reference key-to-record store.
 Property theorems only (helper lemmas live in PBProofs/Lemmas/Db.lean and DbSim.lean).
@@ -404,6 +406,26 @@ theorem iterator_all_records_delivered (n cap : Nat) (sched : List Iter.Act) (s 
       | none => rw [hst] at h; cases h
       | some s1 => rw [hst] at h; exact ih s1 s (iterator_count_invariant n s0 s1 a hinv hst) h hd
   exact key sched (Iter.init n cap) s (by simp [Iter.init]) hrun hdone
+
+/-- A query that is still running while records are deleted or expire (`PB.Iter.HandOver`: `check` = the visit of a
+    record with its validity check, `protect x` = the delete / expiry of `x` has returned): a record that stops being
+    visible before its hand-over check is never listed, and once that holds for every remaining candidate at most
+    capacity + 1 further records — those that had already left the executor — arrive. All candidate lists, buffer
+    capacities and schedules. -/
+theorem invalid_before_check_never_listed (todo : List Nat) (hn : todo.Nodup) (cap : Nat)
+    (sched post : List Iter.HandOver.Act) (s s' : Iter.HandOver.St)
+    (hs : Iter.HandOver.exec (Iter.HandOver.init todo cap) sched = some s) :
+    (∀ x ∈ s.due, x ∉ s.recvd ∧ x ∉ s.buf ∧ s.hand ≠ some x) ∧
+    ((∀ x ∈ s.todo, x ∈ s.prot) → Iter.HandOver.exec s post = some s' →
+      Iter.HandOver.inFlight s' ≤ Iter.HandOver.inFlight s) :=
+  ⟨(Iter.HandOver.inv_exec sched _ s (Iter.HandOver.inv_init todo cap hn) hs).2.2.2,
+   fun hc h2 => Iter.HandOver.closed_exec post s s' hc
+     (Iter.HandOver.buf_le_cap_exec sched _ s (by simp [Iter.HandOver.init]) hs) h2⟩
+
+/-- In every backend's `queryExecutor`, as the source stands, `CheckValidity` gates the send within the visit of the
+    record (table regenerated by harness/cmd/extract/dbiter.go). -/
+theorem source_handover_checks_validity :
+    ∀ e ∈ PB.Gen.DbIter.handOverChecks, "CheckValidity" ∈ e.2 := by decide
 
 /-- With the order of the pinned tree (close the stream, then store the error) a consumer can read `Err()` in
     between and see nothing: the schedule below is a run of the old protocol that ends with the error lost.
